@@ -125,3 +125,16 @@ Proof.
   - split; vm_compute; reflexivity.
   Unshelve. cbn. repeat split; repeat constructor; cbn; intuition discriminate.
 Qed.
+
+(** The marker is the first character of the key, whatever follows it -- also nothing: `=` alone is
+    the constant key with the empty name. *)
+Theorem C09_marker_is_the_first_character :
+  forall s, strip_prefix (VStr ("=" ++ s)) = (VStr s, Some PConst) /\ strip_prefix (VStr ("~" ++ s)) = (VStr s, Some POver).
+Proof. intros s. split; reflexivity. Qed.
+Eval cbv in "ASSUMPTIONS-OF C09_marker_is_the_first_character"%string. Print Assumptions C09_marker_is_the_first_character.
+
+Example C09_empty_name_nonvacuous :
+  let r := (m <- Run.merge_layers [YMap [(YStr "foo", YMap [(YStr "=", YNum (NInt 1))])]; YMap [(YStr "foo", YMap [(YStr "", YNum (NInt 2))])]] ;;
+            render_with_self 30 (VMap m)) in
+  r = Err (EConst (VStr "")) \/ r = Err (EResolving (EConst (VStr ""))).
+Proof. cbn zeta. first [left; vm_compute; reflexivity | right; vm_compute; reflexivity]. Qed.
